@@ -126,6 +126,30 @@ def gen_tree(r, max_files=12):
                 used.add(sib)
                 tree.append(['f', sib, E(pick_content(r, False)[1]), None])
                 files.append((sib, False, 'sibling'))
+    # near-copies: same base name and same size in another directory, different content (what a size+mtime "quick
+    # check" or a cache keyed by name would confuse)
+    if len(dirs) > 1 and files and r.random() < 0.3:
+        src = r.choice([f for f in files if f[1]] or files)
+        ent = [e for e in tree if e[0] == 'f' and e[1] == src[0]][0]
+        data = wire.dec_bytes(ent[2])
+        var = variant_same_size(data)
+        if var is not None:
+            for d in dirs:
+                name = d + '/' + src[0].rsplit('/', 1)[1]
+                if name not in used:
+                    used.add(name)
+                    tree.append(['f', name, E(var), None])
+                    files.append((name, src[1], 'near-copy'))
+                    break
+    # byte-identical copies under other names (vendored duplicates)
+    if files and r.random() < 0.25:
+        src = r.choice([f for f in files if f[1]] or files)
+        ent = [e for e in tree if e[0] == 'f' and e[1] == src[0]][0]
+        name = r.choice(dirs) + '/copy_of_' + src[0].rsplit('/', 1)[1]
+        if name not in used and not src[0].rsplit('/', 1)[1].startswith('.'):
+            used.add(name)
+            tree.append(['f', name, ent[2], None])
+            files.append((name, src[1], 'duplicate'))
     # area no path argument names
     ext_files, ext_dirs = [], []
     if r.random() < 0.5:
@@ -176,6 +200,24 @@ def gen_tree(r, max_files=12):
         tree.append(['l', name, to])
         links.append(name)
     return tree, dirs, files, links
+
+
+def variant_same_size(data):
+    """Another module of exactly the same length: one digit, or else one ASCII letter of the first identifier, changed."""
+    b = bytearray(data)
+    for i, c in enumerate(b):
+        if 48 <= c <= 57:
+            b[i] = 48 + (c - 48 + 1) % 10
+            return bytes(b)
+    for i, c in enumerate(b):
+        if 97 <= c <= 122 and (i == 0 or b[i - 1] in b' \n=(,'):
+            # first letter of a word: only safe inside a comment or string in general, so restrict to comments
+            break
+    j = data.find(b'#')
+    if j >= 0 and j + 2 < len(data) and data[j + 1:j + 2] != b'!':
+        b[j + 1] = 120 if b[j + 1] != 120 else 121
+        return bytes(b)
+    return None
 
 
 def rel_to_cwd(rel, cwd, r=None, absolute=False):
@@ -306,6 +348,8 @@ def gen_c15_world(seed, index, tier):
         'real_crash_checks': 1 if r.random() < 0.3 else 0,
         'subprocess_check': r.random() < 0.04,
     }
+    if r.random() < 0.3:
+        spec['uniform_mtime'] = 1500000000      # a tree unpacked from a reproducible archive: every file has the same mtime
     return spec
 
 
@@ -416,9 +460,20 @@ def gen_c13_batch(seed, index, tier):
                 c2['argv'] = build_argv(c2, sh)
                 specs.append({'kind': 'world', 'prop': 'C13', 'tree': tree, 'cwd': '', 'cmd': c2, 'env': {}, 'listing_seed': 0, 'faults': []})
         return {'kind': 'world', 'batch': specs}
+    # size rule x I/O mode, pinned: every growing / equal-size input through each of the five modes, default flags
+    p = pools()
+    sized = p['grow'] + p['equal']
+    nsz = (len(sized) * 5 + per - 1) // per
+    if index <= nd + nsz:
+        k0 = (index - nd - 1) * per
+        for k in range(k0, min(k0 + per, len(sized) * 5)):
+            content = sized[k // 5][1]
+            tree, cmd = single_input_world(content, IO_MODES[k % 5], {'flags': [], 'preserve': []})
+            finish_cmd(cmd)
+            specs.append({'kind': 'world', 'prop': 'C13', 'tree': tree, 'cwd': '', 'cmd': cmd, 'env': {}, 'listing_seed': 0, 'faults': []})
+        return {'kind': 'world', 'batch': specs}
     # seeded part
     r = seeds.rng(seed, 'c13', index)
-    p = pools()
     for _ in range(per):
         x = r.random()
         if x < 0.35:
@@ -515,6 +570,11 @@ def gen_c14_batch(seed, index, tier):
             # several files of different size classes under one directory argument
             for k in range(r.randrange(1, 5)):
                 tree.append(['f', 'w/x%d.py' % k, E(r.choice(sized)[1]), None])
+            if r.random() < 0.5:
+                # byte-identical copies (vendored duplicates): every copy must obey the size rule on its own
+                dup = r.choice([e for e in tree if e[0] == 'f' and e[1] != 'w/other.py'])
+                for k in range(r.randrange(1, 3)):
+                    tree.append(['f', 'w/dup%d.py' % k, dup[2], None])
             cmd['paths'] = ['w']
         finish_cmd(cmd, r)
         twins = [{'env': {OVERRIDE: '1'}, 'expect': 'forced'}]
